@@ -50,7 +50,7 @@ def residuals(q):
     mean = np.sum(q.B20 * dl) / np.sum(dl)
     out['B20_mean'] = (abs(q.B20_mean - mean), max(np.max(np.abs(q.B20)), 1e-300))
     resid = np.sqrt(np.sum((q.B20 - mean) ** 2 * dl) / np.sum(dl)) / B0
-    out['B20_residual'] = (abs(q.B20_residual - resid) * 1e4, max(np.max(np.abs(q.B20)) / B0, 1e-300))      # a pure statistic of the returned profile: exact to 1e-11 of the profile's size
+    out['B20_residual'] = (abs(q.B20_residual - resid) * 1e6, max(np.max(np.abs(q.B20)) / B0, 1e-300))      # a pure statistic of the returned profile: exact to 1e-13 of the profile's size
     out['B20_variation'] = (abs(q.B20_variation - (np.max(q.B20) - np.min(q.B20))), max(np.max(np.abs(q.B20)), 1e-300))
     return out
 
@@ -94,6 +94,10 @@ def main():
         print(json.dumps(res, default=str))
         return
     t0 = time.time()
+    for c_, q_ in corpus_objects(('r2', 'r3')):          # distilled regression inputs first (fresh and history-built objects)
+        v, n = predict(c_, q_)
+        res['predictions_checked'] += n; res['violations'] += v; res['configs'] += 1
+        dist['corpus'] = dist.get('corpus', 0) + 1
     if a.mode == 'check':
         for i in range(a.n):
             cfg, q = gen_admissible(rng, order=['r2', 'r3'][i % 2], qh=(i % 3 == 0) if i < 6 else None)
